@@ -1,8 +1,10 @@
 (* Properties/C16.v — Unit formatting and parsing are inverse; parsing never returns a wrong
    number.  Statements only; every proof is `exact <lemma>`. *)
-From Coq Require Import ZArith List Ascii String.
+From Coq Require Import ZArith List Ascii String Sorted.
 From Verif Require Import Base.Prelude Base.Str Base.Float Schema.Regex Schema.Units Schema.FloatUnits Generated.Tables
-  Proofs.UnitsArith Proofs.UnitsSweep Proofs.UnitsBuiltin Proofs.UnitsFloat.
+  Proofs.UnitsArith Proofs.UnitsSweep Proofs.UnitsBuiltin Proofs.UnitsFloat
+  Proofs.UnitsStringRe Proofs.UnitsStringTok Proofs.UnitsStringSound Proofs.UnitsStringRound
+  Proofs.UnitsStringRT Proofs.UnitsStringWitness Proofs.UnitsStringFloat Proofs.UnitsStringSpec.
 Import ListNotations.
 Open Scope Z_scope.
 Open Scope list_scope.
@@ -100,7 +102,210 @@ Proof. vm_compute. repeat split; reflexivity. Qed.
    subtraction of the decomposition; it is carried by the correspondence family (fmtfloat cases,
    direct tolerance check) only. *)
 
-(* NOT proved (partial): the string-level round trip for ARBITRARY definitions.  It is false
-   as stated when two units share a name or a name is a count-prefix of another's token
-   stream; the correspondence check exercises generated definitions (Proofs/ has no theorem
-   for them) and reports every definition on which the implementation fails to round-trip. *)
+(* (5) String level, ARBITRARY well-formed definitions, every input string: "parsing never
+   returns a wrong number".  If ParseInt answers n then the trimmed input IS a tokenisation
+   (Proofs/UnitsStringSound.v: tokenisation / Proofs/UnitsStringTok.v: useq, uparts):
+   optional spaces, then for every multiplier in strictly DESCENDING order and last for the base
+   unit either nothing or  count, optional spaces, one of the four declared names of that unit
+   (the base unit may stay unnamed), optional spaces; the counts are non-empty digit runs;
+   n is EXACTLY  sum count x multiplier  (absent unit = 0), every partial sum (largest
+   unit first), every count and every product is an int64.  Rests on the soundness of the backtracking matcher w.r.t. a
+   declarative semantics of the whole regexp language of Schema/Regex.v (C16_matcher_sound). *)
+Theorem C16_matcher_sound : forall r whole s cs,
+  re_match_at r whole s = Some cs -> exists s', re_matches whole r s s' [] cs.
+Proof. exact re_match_at_sound. Qed.
+Print Assumptions C16_matcher_sound.
+
+(* ... and the fuel the model gives the matcher is enough: where a declarative match exists
+   the matcher answers (with a match, by soundness) *)
+Theorem C16_matcher_complete_weak : forall r whole s s' cs,
+  re_matches whole r s s' [] cs -> re_match_at r whole s <> None.
+Proof. exact re_match_at_complete. Qed.
+Print Assumptions C16_matcher_complete_weak.
+
+Theorem C16_parse_sound : forall u s n, wf_units u = true -> parse_units_int u s = Some n ->
+  exists toks,
+    tokenisation u (chars (trim_space s)) toks
+    /\ n = dot (map tok_count toks) (units_keys u)
+    /\ (forall k, in_i64 (dot (firstn k (map tok_count toks)) (units_keys u)) = true)
+    /\ Forall (fun cm => in_i64 (fst cm) = true /\ in_i64 (fst cm * snd cm) = true) (combine (map tok_count toks) (units_keys u))
+    /\ StronglySorted mult_gt (sorted_mults u).
+Proof. exact parse_sound. Qed.
+Print Assumptions C16_parse_sound.
+
+(* non-vacuity: a definition and inputs that meet the hypotheses; and the shape of a tokenisation *)
+Example C16_parse_sound_nonvacuous :
+  wf_units unit_duration_seconds = true
+  /\ parse_units_int unit_duration_seconds "  1 day 5m30 seconds " = Some 86730
+  /\ units_keys unit_duration_seconds = [86400; 3600; 60; 1]
+  /\ tokenisation unit_duration_seconds (chars "5m 30s") [[]; []; chars "5"; chars "30"].
+Proof.
+  split; [vm_compute; reflexivity|]. split; [vm_compute; reflexivity|]. split; [vm_compute; reflexivity|].
+  exists [], (chars "5m 30s"). split; [reflexivity|]. split; [reflexivity|]. split.
+  - change (chars "5m 30s") with ([] ++ [] ++ (chars "5" ++ [] ++ chars "m") ++ chars " " ++ (chars "30" ++ [] ++ chars "s") ++ [] ++ [])%list.
+    change (uparts unit_duration_seconds) with
+      [(86400, false, unit_names (mkUnit "d" "d" "day" "days")); (3600, false, unit_names (mkUnit "H" "H" "hour" "hours"));
+       (60, false, unit_names (mkUnit "m" "m" "minute" "minutes")); (1, true, ""%string :: unit_names (mkUnit "s" "s" "second" "seconds"))].
+    apply (useq_cons 86400 false _ _ [] [] [] ([] ++ [] ++ (chars "5" ++ [] ++ chars "m") ++ chars " " ++ (chars "30" ++ [] ++ chars "s") ++ [] ++ [])%list
+             [[]; chars "5"; chars "30"]); [constructor | reflexivity |].
+    apply (useq_cons 3600 false _ _ [] [] [] ((chars "5" ++ [] ++ chars "m") ++ chars " " ++ (chars "30" ++ [] ++ chars "s") ++ [] ++ [])%list
+             [chars "5"; chars "30"]); [constructor | reflexivity |].
+    apply (useq_cons 60 false _ _ (chars "5" ++ [] ++ chars "m")%list (chars "5") (chars " ") ((chars "30" ++ [] ++ chars "s") ++ [] ++ [])%list
+             [chars "30"]);
+      [apply (useg_tok false _ (chars "5") [] "m"%string); [constructor; [discriminate | reflexivity] | reflexivity | cbn; tauto] | reflexivity |].
+    apply (useq_cons 1 true _ _ (chars "30" ++ [] ++ chars "s")%list (chars "30") [] [] []);
+      [apply (useg_tok true _ (chars "30") [] "s"%string); [constructor; [discriminate | reflexivity] | reflexivity | cbn; tauto] | reflexivity | constructor].
+  - constructor; [left; reflexivity|]. constructor; [left; reflexivity|].
+    constructor; [right; split; [discriminate | reflexivity]|].
+    constructor; [right; split; [discriminate | reflexivity] | constructor].
+Qed.
+
+(* (6) String level, ARBITRARY definitions: the round trip.
+   FULL statement (FALSE — see C16_roundtrip_arbitrary_refuted below):
+     forall u n, wf_units u = true -> 0 <= n <= max_i64 ->
+       parse_units_int u (format_short_int u n) = Some n /\ parse_units_int u (format_long_int u n) = Some n.
+   Proved: the same under the boolean  names_unambiguous u  (Proofs/UnitsStringRound.v):
+     - every name starts with a byte that is neither a digit nor a regexp space, is not "." and
+       does not start with "." followed by a digit, and does not end in a byte strings.TrimSpace cuts;
+     - no name is a proper prefix of another name (of any unit) that continues with a digit or a space
+       (plain prefixes such as "m" / "ms" / "mm" are fine);
+     - two DIFFERENT units (base included) do not share a name.
+   Unbounded in n (all of [0, max int64]) and in the definition; no sweep.  Method: the formatted
+   string has a tokenisation, so the matcher answers (C16_matcher_complete_weak: fuel is enough);
+   its answer is a tokenisation (C16_matcher_sound); under names_unambiguous the formatted string
+   has exactly ONE tokenisation (useq_unique), whose counts are the greedy decomposition
+   (C16_decompose_sum) — so leftmost-first priorities never have to be analysed. *)
+Theorem C16_roundtrip_partial : forall u n,
+  wf_units u = true -> names_unambiguous u = true -> 0 <= n <= max_i64 ->
+  parse_units_int u (format_short_int u n) = Some n /\ parse_units_int u (format_long_int u n) = Some n.
+Proof. intros u n W NU Hn. split; [exact (roundtrip_short u n W NU Hn) | exact (roundtrip_long u n W NU Hn)]. Qed.
+Print Assumptions C16_roundtrip_partial.
+
+(* the tokenisation of a formatted string is unique (the heart of the round trip), for any list
+   of parts whose names are good *)
+Theorem C16_tokenisation_unique : forall G, names_good G -> forall ps, incl ps G ->
+  NoDup (map upart_key ps) -> bare_last ps ->
+  forall ocs, Forall2 oc_valid ps ocs -> forall toks, useq ps (render ocs) toks -> toks = map otok ocs.
+Proof. exact useq_unique. Qed.
+Print Assumptions C16_tokenisation_unique.
+
+(* the five built-in unit sets are unambiguous: for them the round trip holds on the WHOLE range,
+   not only on the swept interval of C16_roundtrip_builtin_bounded *)
+Theorem C16_roundtrip_builtin_all : forall u n, In u builtin_units -> 0 <= n <= max_i64 ->
+  parse_units_int u (format_short_int u n) = Some n /\ parse_units_int u (format_long_int u n) = Some n.
+Proof. exact builtin_roundtrip_all. Qed.
+Print Assumptions C16_roundtrip_builtin_all.
+
+(* non-vacuity: definitions that satisfy the hypotheses, among them one with names that are
+   prefixes of each other *)
+Example C16_roundtrip_nonvacuous :
+  forallb (fun u => wf_units u && names_unambiguous u) builtin_units = true
+  /\ wf_units w_mmm = true /\ names_unambiguous w_mmm = true
+  /\ format_short_int w_mmm 3727 = "1mmm2m7mm"%string /\ parse_units_int w_mmm "1mmm2m7mm" = Some 3727.
+Proof. split; [exact builtin_unambiguous | exact w_mmm_ok]. Qed.
+
+(* Without names_unambiguous the round trip is FALSE in the faithful model — and in the SDK, which
+   accepts these definitions (NewUnits validates nothing) and answers identically: a unit whose
+   short name is shared prints 3600 as "1m" and reads it back as 60. *)
+Theorem C16_roundtrip_arbitrary_refuted :
+  exists u n, wf_units u = true /\ 0 <= n <= max_i64
+    /\ exists m, parse_units_int u (format_short_int u n) = Some m /\ m <> n.
+Proof. exact roundtrip_arbitrary_refuted. Qed.
+Print Assumptions C16_roundtrip_arbitrary_refuted.
+
+(* one witness per clause of names_unambiguous (each definition is wf_units, violates exactly the
+   clause named, and fails to round-trip) *)
+Example C16_unambiguous_clauses_needed :
+  (names_unambiguous w_shared = false /\ parse_units_int w_shared (format_short_int w_shared 3600) = Some 60)
+  /\ (names_unambiguous w_prefix = false /\ parse_units_int w_prefix (format_short_int w_prefix 121) = Some 120)
+  /\ (names_unambiguous w_digit = false /\ parse_units_int w_digit (format_short_int w_digit 10) = Some 100)
+  /\ (names_unambiguous w_trail = false /\ parse_units_int w_trail (format_short_int w_trail 5) = None)
+  /\ (names_unambiguous w_dot = false /\ parse_units_int w_dot (format_short_int w_dot 180) = None)
+  /\ (names_unambiguous w_point = false /\ parse_units_int w_point (format_short_int w_point 303) = None).
+Proof.
+  pose proof w_shared_fails. pose proof w_prefix_fails. pose proof w_digit_fails.
+  pose proof w_trail_fails. pose proof w_dot_fails. pose proof w_point_fails. tauto.
+Qed.
+
+(* (7) The float entry point at string level, ARBITRARY definitions.  A successful ParseFloat reads
+   a tokenisation of its input (same template, same matcher; only the base count may carry a
+   fraction) and its answer is the accumulation with the correctly rounded + and x of
+   Schema/FloatUnits.v over exactly these tokens ... *)
+Theorem C16_parse_float_sound : forall u s x, wf_units u = true -> parse_units_float u s = Some x ->
+  exists sp0 body toks st,
+    chars (trim_space s) = sp0 ++ body /\ spaces sp0 = true /\ useq (uparts u) body toks
+    /\ fold_left facc (combine toks (units_keys u)) (Some (0, FZero false, false)) = Some st
+    /\ x = fresult st.
+Proof. exact parse_float_sound. Qed.
+Print Assumptions C16_parse_float_sound.
+
+(* ... and wherever ParseInt answers n, ParseFloat answers the correctly rounded float64 of that
+   exact integer (any definition, any string): no second, diverging reading of integer inputs;
+   in particular the integer formatters' output reads back through ParseFloat as float64(n). *)
+Theorem C16_parse_float_of_int : forall u s n,
+  parse_units_int u s = Some n -> parse_units_float u s = Some (fl_of_Z b64 n).
+Proof. exact parse_float_of_int. Qed.
+Print Assumptions C16_parse_float_of_int.
+
+Theorem C16_format_int_parse_float : forall u n,
+  wf_units u = true -> names_unambiguous u = true -> 0 <= n <= max_i64 ->
+  parse_units_float u (format_short_int u n) = Some (fl_of_Z b64 n)
+  /\ parse_units_float u (format_long_int u n) = Some (fl_of_Z b64 n).
+Proof. exact format_int_parse_float. Qed.
+Print Assumptions C16_format_int_parse_float.
+
+Example C16_parse_float_nonvacuous :
+  parse_units_int unit_duration_seconds "1m30s" = Some 90
+  /\ parse_units_float unit_duration_seconds "1m30s" = Some (fl_of_Z b64 90)
+  /\ exists x, parse_units_float unit_duration_seconds "1m 30.5 s" = Some x.
+Proof. split; [vm_compute; reflexivity|]. split; [vm_compute; reflexivity|]. eexists. vm_compute. reflexivity. Qed.
+
+(* (8) ParseInt, EXACTLY, for definitions with plain names (boolean names_plain: no digit, no
+   regexp space and no point inside a name; different units share no name — the built-in sets are
+   such).  Converse of C16_parse_sound: EVERY string whose trimmed form is a non-empty tokenisation
+   with all counts, products and partial sums inside int64 is accepted, and the answer is the sum
+   (arbitrary spaces between the pieces, leading zeros, absent units, an unnamed base count).  So
+   the parser accepts precisely the well-formed strings and returns precisely their value: *)
+Theorem C16_parse_complete : forall u s toks,
+  wf_units u = true -> names_plain u = true -> chars (trim_space s) <> [] ->
+  tokenisation u (chars (trim_space s)) toks -> in_range u toks ->
+  parse_units_int u s = Some (dot (map tok_count toks) (units_keys u)).
+Proof. exact parse_complete. Qed.
+Print Assumptions C16_parse_complete.
+
+Theorem C16_parse_spec : forall u s n, wf_units u = true -> names_plain u = true ->
+  (parse_units_int u s = Some n
+   <-> chars (trim_space s) <> []
+       /\ exists toks, tokenisation u (chars (trim_space s)) toks /\ in_range u toks
+                       /\ n = dot (map tok_count toks) (units_keys u)).
+Proof. exact parse_spec. Qed.
+Print Assumptions C16_parse_spec.
+
+Theorem C16_parse_spec_builtin : forall u s n, In u builtin_units ->
+  (parse_units_int u s = Some n
+   <-> chars (trim_space s) <> []
+       /\ exists toks, tokenisation u (chars (trim_space s)) toks /\ in_range u toks
+                       /\ n = dot (map tok_count toks) (units_keys u)).
+Proof. exact builtin_parse_spec. Qed.
+Print Assumptions C16_parse_spec_builtin.
+
+(* the tokens are a function of the string: two tokenisations of one string (up to leading
+   spaces) carry the same tokens *)
+Theorem C16_tokens_determined : forall G, plain_good G -> forall ps, incl ps G ->
+  NoDup (map upart_key ps) -> bare_last ps ->
+  forall zA zB sA sB tA tB, spaces zA = true -> spaces zB = true -> zA ++ sA = zB ++ sB ->
+  useq ps sA tA -> useq ps sB tB -> tA = tB.
+Proof. exact useq_det. Qed.
+Print Assumptions C16_tokens_determined.
+
+Example C16_parse_spec_nonvacuous :
+  forallb (fun u => wf_units u && names_plain u) builtin_units = true
+  /\ parse_units_int unit_duration_seconds " 007 days 5 m  30s " = Some 605130
+  /\ parse_units_int unit_duration_seconds "5m 1H" = None
+  /\ parse_units_int unit_bytes "9007199254740993PB" = None.
+Proof. split; [exact builtin_plain|]. vm_compute. repeat split; reflexivity. Qed.
+
+(* NOT proved: the float-side round trip within tolerance (see (4)); that the conditions of
+   names_unambiguous are the weakest possible (they are sufficient, and each clause is needed
+   in the sense of the witnesses above, but e.g. a digit-continuation hazard between two names of
+   the same unit can be harmless thanks to the matcher's leftmost-first priorities). *)
